@@ -68,6 +68,10 @@ CHECKS = {
   "held on the observed permutations: all orders of the top-level blocks for small documents and sampled orders beyond give the same verdict, the same entry contents (matched by key) and collections ordered like the declarations",
   "trusts the model projector only for the expected key order; contents are compared between real executions",
   "runtime monitoring: metamorphic relation between executions of permuted documents (content equality modulo the permutation, order equality with the permutation)"),
+ "C11": ("fault_enumeration",
+  "held on the injected faults: for generated accepted documents, every fault kind of the statement at the positions it applies to (chosen by index), written directly and carried by PASTE and INCLUDE, is rejected; for direct faults the diagnostic lies inside a directive that takes part in the fault",
+  "trusts the renderer's span map for the participants of a fault",
+  "runtime monitoring with fault injection: one injected fault per execution, oracle = rejection + location inside the participants' spans"),
 }
 
 def main():
